@@ -146,6 +146,12 @@ static void client (void *arg) {
 				{ int x = a, k; for (k = 0; k < MAXOBJ && x != 0; k++, x = S.lpar[x]) if (S.notify_returned[x]) must = 1; }   /* an ancestor's (or its own) notify has returned before this observation began */
 				if (!strcmp (o->name, "wait")) { S.wobjs[t][0] = a; S.nwobjs[t] = 1; S.nwbase[t] = NULL; S.nwinit[t] = 0; }
 				r = !strcmp (o->name, "poll") ? nsync_note_is_notified (S.note[a]) : nsync_note_wait (S.note[a], deadline (o->dl));
+				if (!strcmp (o->name, "poll")) {
+					/* nsync_note_expiry: the note's own expiry (the projection compares the field with the specification's exp, which is the
+					   minimum over the path to the root: C08) */
+					nsync_time e = nsync_note_expiry (S.note[a]);
+					if (nsync_time_cmp (e, S.note[a]->expiry_time) != 0) rt_violation ("O-lin", "nsync_note_expiry(note %d) differs from the note's expiry time", a);
+				}
 				if (r) {
 					int x = a, k, cause = 0;
 					for (k = 0; k < MAXOBJ && x != 0; k++, x = S.lpar[x]) if (S.called[x] || expired (S.dl_of[x])) cause = 1;
